@@ -110,17 +110,17 @@ SCHED_PROPS = {"C01", "C02", "C04", "C13", "C20", "C03"}
 
 TEXTS = {'C01': 'Static, clause level: (R01) every in-repo time component pulls in _update exactly at the time next_time announced before the update (two consecutive abstract updates over a symbolic clock with uninterpreted calendar arithmetic; syntactic clock terms only where a body is outside the vocabulary); (R02) the dependency walk of _find_dependencies, abstractly interpreted over all chains of adapter kinds (length <= 3 quick / 5 thorough, time-stepped and pull-based owners, shared outputs, static outputs), demands from the source exactly the time the data path requests; (R03) the decision table of one scheduling step over 16 small topologies updates a component only when none of its transitive dependencies (through pull-based components) lags; (R17/R04) refusals of outputs and check_time are the exact complement of the strict lag test. NOT decided: truthfulness of third-party components, positivity of steps.',
     'C02': "Static: (R05) the run loop hands exactly one arg-min-of-time component per iteration to the scheduling step, update() has one call site, the strict termination test guards the back edge and ignores finished components; (R02) assumed time == requested time for every adapter-kind chain incl. accumulated delays and strict lag test; (R03) the step's decision table only ever updates the start component or a component reached through lagging links. NOT decided: optimality of the whole schedule.", 'C03': 'Static: (R06) life-cycle calls occur in the order initialize/connect/validate/update/finalize on every path of Composition, each followed by a status check, finalize post-dominates the loop, adapters are held in a set and finalized at one call site, SDK wrappers call their hook exactly once; (R07) status tables of wrappers, hooks and driver agree (FINISHED kept, accepted, not selected); (R08) every in-repo time component advances its clock exactly once per update; (R05/R05t/R03) scripted runs of the real constructor / connect / run: every step starts from a least-advanced unfinished component, no step is started once all are finished or at the end time (also when all are beyond it from the start), the run finalizes; (R42) the in-repo forwarding component publishes a copy of what it pulled (a re-published stored array is refused by the output and aborts a valid run). NOT decided: finiteness (needs positive steps), final times.',
-    'C04': 'Static: (R09) cycle test dominates every recursive call, the same chain object is passed, and the decision table over cyclic / diamond topologies (direct, through pull-based components, with delay / no-dependency adapters) raises FinamCircularCouplingError exactly for cycles of lagging links and nothing else (no TypeError, no false cycle); (R10) the connect loop, run against scripted component statuses, ends iff all connect and raises the circular-coupling error listing exactly the stuck components as soon as an iteration makes no progress; (R10b) every in-repo _connect reaches try_connect; (R02) delays split over several adapters accumulate. NOT decided: the arithmetic sufficiency of delays vs. steps.',
+    'C04': 'Static: (R09) cycle test dominates every recursive call, the same chain object is passed, and the decision table over cyclic / diamond topologies (direct, through pull-based components, with delay / no-dependency adapters) raises FinamCircularCouplingError exactly for cycles of lagging links and nothing else (no TypeError, no false cycle); (R10) the connect loop, run against scripted component statuses, ends iff all connect and raises the circular-coupling error listing exactly the stuck components as soon as an iteration makes no progress; (R10b) every in-repo _connect reaches try_connect; (R02) delays split over several adapters accumulate; (R09p) delay-resolved rings through pull-based components with a slower consumer on the same pull-based output - on the current tree this is the OPEN KNOWN FINDING F29 (a circular-coupling error is declared without testing whether the own request of the ring member can be served; printed as KNOWN-FINDING, exit 0); (R29i) the integration adapters answer repeated requests at the first buffered time. NOT decided: the arithmetic sufficiency of delays vs. steps.',
     'C06': 'Static: (R11/R12) ConnectHelper.connect, abstractly interpreted against 30 scripted peers (each exchange succeeding at its own attempt), reports CONNECTED iff every declared exchange is done, CONNECTING iff something new was exchanged in this call, else CONNECTING_IDLE, never repeats an exchange, and pulls initial data for the composition start; (R13) only FinamNoDataError is swallowed and no state change precedes a possible FinamNoDataError on the exchange path; (R14) initial data is published for composition start and producer start (fresh copy); (R10/R10b) connect loop terminates / lists stuck components. NOT decided: user _connect hooks, convergence speed.',
     'C07': 'Static: (R15) decision table of Info.accepts (every incompatible field recorded, unset fields tolerated only from downstream), both directions checked with a conflict ending in FinamMetaDataError, Output.get_info fills unset fields before counting the exchange; (R16) abstract runs of the public get_info() of every concrete adapter against a scripted source: exactly one request reaches the source, it carries the time and units of the consumer (or leaves them open), the delivered info carries the time and meta data of the source; ValueToGrid asks for grid-less data and refuses a conflicting grid, GridToValue leaves the grid open; (R37) mask acceptance table; (R41) no mask value in a truth context; (R34) merged input info and transform direction. NOT decided: numeric grid compatibility (np.allclose on coordinates) and unit dimensionality (pint).',
     'C08': 'Static: (R17) Output.get_data over all order types (<=3/5 publications x request positions incl. midpoints) serves the nearest publication and refuses everything outside [oldest, newest]; push_data stages are ordered (time check, guards, prepare, memory-sharing refusal, pack, append, publish time, notify); (R18) every pull goes through transform -> to_units -> check; (R19) no time-leading data reaches a rank-sensitive grid transform; (R36) relabel iff equivalent, convert otherwise; (R33/R34) layout algebra of the grid transform. NOT decided: numeric equality of values, shape normalisation in prepare.',
-    'C09': "Static: (R20) the end point an adapter registers with pinged() is the one named in its pulls, for all 18 adapter classes; (R21) decision table of Output.get_data/_clear_data over order types with 1-2 consumers (plain or adapter, lagging, never pulled) and of every buffering adapter: exactly the entries older than the last one at/before the slowest consumer's request are dropped, files removed, RAM counter adjusted; (R25/R23) retained spilled entries keep unique files. NOT decided: the premise of non-decreasing requests (follows from C01/C03 for driver-made requests).", 'C10': "Static: (R22) packed/unpacked typestate over every read of a spill container's payload: no packed entry (possibly a file name) reaches a return, arithmetic or foreign call without _unpack; (R23) every eviction removes the file / decrements the RAM counter in the right branch and Composition's finalize path reaches, for every class owning a spill container, code removing all remaining files; (R24) writer and reader agree on masked payloads (type-test guard) and on the unit domain of the label; (R25) file names lie below memory_location, are unique per slot and spill, limit/location reach all outputs and adapters before data flows. NOT decided: bit-equality of the .npy round trip.", 'C11': 'Static: (R27) _get_data of Next/Previous/Linear/StepTime abstractly interpreted over every order type (buffer sizes 1..3/5 x request positions): the result is, as a term, the first entry at/after t, the last at/before t, old + dt*(new-old) with dt=(t-t_old)/(t_new-t_old) (rational normal form), the step interpolant with the documented strictness; out-of-range requests raise FinamTimeError; (R26) notifications pull(time, self), strip, pack, append; (R21) eviction keeps what later requests need. NOT decided: floating point results, broadcasting of gridded payloads.',
+    'C09': "Static: (R20) the end point an adapter registers with pinged() is the one named in its pulls, for all 18 adapter classes; (R21) decision table of Output.get_data/_clear_data over order types with 1-2 consumers (plain or adapter, lagging, never pulled) and of every buffering adapter: exactly the entries older than the last one at/before the slowest consumer's request are dropped, files removed, RAM counter adjusted; (R25/R23) retained spilled entries keep unique files. NOT decided: the premise of non-decreasing requests (follows from C01/C03 for driver-made requests).", 'C10': "Static: (R22) packed/unpacked typestate over every read of a spill container's payload: no packed entry (possibly a file name) reaches a return, arithmetic or foreign call without _unpack; (R23) every eviction removes the file / decrements the RAM counter in the right branch and Composition's finalize path reaches, for every class owning a spill container, code removing all remaining files; (R24) writer and reader agree on masked payloads (type-test guard) and on the unit domain of the label; (R25) file names lie below memory_location, are unique per slot and spill, limit/location reach all outputs and adapters before data flows. NOT decided: bit-equality of the .npy round trip.", 'C11': 'Static: (R27) _get_data of Next/Previous/Linear/StepTime abstractly interpreted over every order type (buffer sizes 1..3/5 x request positions): the result is, as a term, the first entry at/after t, the last at/before t, old + dt*(new-old) with dt=(t-t_old)/(t_new-t_old) (rational normal form), the step interpolant with the documented strictness; out-of-range requests raise FinamTimeError; (R26) notifications pull(time, self), strip, pack, append; (R21) eviction keeps what later requests need; (R19s) strip_time removes exactly the leading time axis (decision table over concrete shapes incl. payload axes of length one). NOT decided: floating point results, broadcasting of gridded payloads.',
     'C12': 'Static: (R29) _get_data of Avg/SumOverTime abstractly interpreted over order types of (previous pull, request, buffer times, step position): the returned term equals, as a rational function of the symbolic values and times, the exact integral of the linear / step interpolant over [previous pull, request] (divided by its length for the average), the interval start moves to the request and eviction uses the old start; (R28) time exponent of result and declared units agree. NOT decided: numerical conservation, range of averages as numbers.',
     'C13': 'Static: (R30) TimeDelayAdapter.get_data = with_delay(time) -> pull(delayed, target) -> _pulled(original); decision tables of the three with_delay implementations (max(t-delay, start); n-th previous request minus extra delay incl. repeated request times, bounded history; start before first push else min(t, newest push)); (R02) chained delays add up and the driver assumes what is requested. NOT decided: values delivered by the source.',
     'C14': "Static: (R31) every writer of a field a memoised grid property is computed from resets the memo; (R32) points, cells, cell_centers, data_shape, data_axes, data_points agree on order / axis direction / data location, setters validate locations, casts forward all layout fields; (R32b) index-space typing of order_map and of gen_cells' re-ordering; flat axes at any position leave the cells of the grid without them; (R31d) state a grid constructor derives from other attributes is brought up to date by whoever assigns those later; (R32 axes-owned) a rectilinear grid works on its own copies of the given coordinate arrays. (R32d) the corner formulas of gen_cells as index algebra (mixed-radix / point-id polynomials). NOT decided: coordinates as numbers.", 'C15': "Static: (R33) layout algebra: to_canonical / from_canonical, abstractly interpreted for all 28 layouts (1-3 D, both axis orders, every direction combination), yield x,y,z-indexed increasing data, the grid's own layout, and the identity when composed; (R34) get_transform_to maps source layout onto target layout for all layout pairs, returns None only for equal layouts (the class's own __eq__), refuses incompatible grids; Input takes the transform source->merged grid; (R19) the transform never sees the time axis; (R15gl) compatible_with(other, check_location=False) answers False for grids of different sizes; (R31d) derived layout state follows later assignments of its sources. NOT decided: 'compatible exactly when same locations' (np.allclose on coordinates).", 'C16': "Static: (R35) both regridders end to end (constructor, link, public get_info with the real metadata exchange, grid set-up, _get_data) over provenance-labelled terms: the tree / interpolator is built over the delivered source grid's points (source mask and order applied) and queried at the output grid's points (output mask, order, CRS target->source), pulled data is flattened in the delivered grid's order and expanded with the output grid's shape / order / announced mask; a user-given input grid in another layout is never paired with the data; differing output grids, missing specs, one-sided CRS are refused; (R35m) decision table of the mask announced by RegridLinear; (R41) masks are never truth-tested; (R33c) to_compressed / from_compressed mirror each other. NOT decided: nearest-neighbour and affine exactness (scipy), convex-hull masking.", 'C17': 'Static: (R36) decision table of compatible_units / equivalent_units / _cache_units against a scripted pint: compatible iff the conversion does not raise DimensionalityError, equivalent iff converting 1 gives 1, memo keyed by the ordered pair, answers independent of query history; to_units relabels iff equivalent, converts otherwise, refuses incompatible; prepare/check raise FinamDataError; (R42/R40/R28/R16) in-repo components and adapters hand on quantities with their units (TimeTrigger, WeightedSum, the time factor of SumOverTime, delivered units of every adapter). NOT decided: physical exactness of factors and offsets (pint is trusted).',
     'C18': 'Static: (R37) masks_compatible over 98 combinations of {None, FLEX, NONE, nomask, masks} x direction equals the documented table; masks travel with their own grid; prepare applies exactly info.mask; (R33c) compress/expand use the same order for data and mask and the negated mask as selector. NOT decided: element-wise round-trip equality as numbers.',
     'C19': 'Static: (R38) _validate_composition abstractly interpreted over 150+ topologies (all chains of source/adapter/sink kinds up to length 2, static combinations, unconnected inputs, fan-outs at/below/above no-branch adapters and next to sibling branches through them in both link orders, missing components with equal and distinct slot names and at every input position): FinamConnectError exactly for the unworkable ones; metadata reports exactly the created links; (R06) validation dominates the first exchange. NOT decided: arbitrary fan-out trees beyond the enumerated shapes.',
-    'C20': 'Static: (R39) static output serves its single publication for any time, refuses a second one, stores time None; static input fetches once; (R40) a pull-based output invokes its provider once with the requested time, WeightedSum pulls all inputs for that time and multiplies each value with its own weight; (R14) providers return fresh objects; (R03/R09) scheduling through pull-based components; (R40c) several consumers behind one pull-based component - on the current tree this is the OPEN KNOWN FINDING F16 (the upstream output sees them as one end point and discards what the slower-requesting one still needs; printed as KNOWN-FINDING, exit 0). NOT decided: the numeric sum.'}
+    'C20': 'Static: (R39) static output serves its single publication for any time, refuses a second one, stores time None; static input fetches once; (R40) a pull-based output invokes its provider once with the requested time, WeightedSum pulls all inputs for that time and multiplies each value with its own weight; (R14) providers return fresh objects; (R03/R09) scheduling through pull-based components; (R09p) rings through pull-based components (open known finding F29, see C04); (R11s) static outputs take no part in the common-starting-time check of the connect helper; (R40c) several consumers behind one pull-based component - on the current tree this is the OPEN KNOWN FINDING F16 (the upstream output sees them as one end point and discards what the slower-requesting one still needs; printed as KNOWN-FINDING, exit 0). NOT decided: the numeric sum.'}
 
 for _pid in sorted(RULES):
     TEXTS[_pid] += (" Rules evaluated under this property (each a necessary condition of a mechanism the property relies on; "
